@@ -622,7 +622,7 @@ def run_config(item, ctx):
 
 
 def _run_config(idx, tier, seed, ctx):
-    cfg = W.gen_config(seed, tier, family=ctx.get('family'))
+    cfg = W.gen_config(seed, tier, family=ctx.get('family'), index=idx)
     stats = new_stats()
     stats['configs'] = 1
     stats['families'][cfg['family']] += 1
@@ -789,7 +789,7 @@ def digests_only(seed, tier, idxs, family=None):
     np.seterr(all='ignore')
     out = []
     for idx in idxs:
-        cfg = W.gen_config(core.derive_seed(seed, PROP, idx), tier, family=family)
+        cfg = W.gen_config(core.derive_seed(seed, PROP, idx), tier, family=family, index=idx)
         world, o, _ = reference_run(cfg)
         out.append([idx] + list(run_digests(world)))
     print(json.dumps(out))
